@@ -160,6 +160,12 @@ func (qs *QueryStore) OnQueryChange(cb func(store.QueryChange)) {
 // Flush waits for the indexing queue to be cleared.
 func (qs *QueryStore) Flush() {
 	qs.tq.Flush()
+	// The task queue's Flush may return while the last task is still being
+	// executed. Tasks are handled sequentially, in order; once a task queued
+	// now is run, every index update queued before it is done.
+	done := make(chan struct{})
+	qs.tq.Do(func() { close(done) })
+	<-done
 }
 
 func (qs *QueryStore) handleChange(id string, before, after interface{}) {
